@@ -187,7 +187,10 @@ static bool runScenario(uint64_t seed, uint64_t idx)
 #endif
   gUnlockDelayUs = rng.chance(0.4) ? uint32_t(rng.range(50, 1500)) : 0;
   auto onErr = [S](std::exception_ptr) { S->errHandlerCalls++; };
-  S->pool = new ThreadPool(S->minT, S->maxT, std::chrono::milliseconds(idleMs), S->qsize, onErr);
+  // a third of the pools have NO task-error handler (throwing tasks then take the pool's default path)
+  bool noHandler = rng.chance(0.33);
+  S->pool = noHandler ? new ThreadPool(S->minT, S->maxT, std::chrono::milliseconds(idleMs), S->qsize)
+                      : new ThreadPool(S->minT, S->maxT, std::chrono::milliseconds(idleMs), S->qsize, onErr);
   // a quarter of the scenarios run in the SECOND life of the pool (stop -> reset -> start after a short earlier
   // life): the restarted pool owes the same guarantees, and nothing of the first life may leak into the second
   bool secondLife = rng.chance(0.25);
@@ -403,6 +406,7 @@ static bool runScenario(uint64_t seed, uint64_t idx)
   else if (S->sampledMaxThreads.load() > S->maxT)
     O.viol("C09:threads-exceed-max", "getTotalThreadCount() exceeded the configured maximum while accepting", det("\"sampled_total\":" + std::to_string(S->sampledMaxThreads.load())));
 
+  if (noHandler) O.obs("scenarios_without_error_handler");
   if (secondLife)
   {
     O.obs("scenarios_in_second_life");
